@@ -47,15 +47,21 @@ type Op struct {
 }
 
 type WIn struct {
-	Max  int64 `json:"max"`
-	Init []int `json:"init,omitempty"` // lines already in the file
-	Ops  []Op  `json:"ops"`
+	// Name: base name of the log file ("" = log); Deep: extra directory levels below the
+	// directory that the outage operations move
+	Name string `json:"name,omitempty"`
+	Deep int    `json:"deep,omitempty"`
+	Max  int64  `json:"max"`
+	Init []int  `json:"init,omitempty"` // lines already in the file
+	Ops  []Op   `json:"ops"`
 }
 
 type CIn struct {
-	Max      int64 `json:"max"`
-	Openable bool  `json:"openable"`
-	Init     []int `json:"init,omitempty"`
+	Name     string `json:"name,omitempty"` // as for the direct cases
+	Deep     int    `json:"deep,omitempty"`
+	Max      int64  `json:"max"`
+	Openable bool   `json:"openable"`
+	Init     []int  `json:"init,omitempty"`
 	// per burst: target length of each encoded event; -1/-2/-3 = an event the encoder rejects
 	// (NaN float / chan / func value)
 	Bursts [][]int `json:"bursts"`
@@ -94,7 +100,8 @@ type Obs struct {
 	Moved   []int    `json:"moved,omitempty"`
 	Gone    []int    `json:"gone,omitempty"`
 	Blocked bool     `json:"blocked,omitempty"`
-	NewErr  bool     `json:"new_err,omitempty"` // New returned an error: no channel, nothing to Send on
+	NewErr  bool     `json:"new_err,omitempty"`  // New returned an error: no channel, nothing to Send on
+	LogErrs int      `json:"log_errs,omitempty"` // "Failed to copy data" lines of the writer for this path
 	cur     []byte
 	moved   [][]byte
 	gone    [][]byte
@@ -110,13 +117,27 @@ type dest struct {
 	nmoved           int
 }
 
-func newDest(root string) *dest {
+func newDest(root, name string, deep int) *dest {
 	d := &dest{root: root, ldir: filepath.Join(root, "d")}
-	d.path = filepath.Join(d.ldir, "log")
-	if err := os.MkdirAll(d.ldir, 0o755); err != nil {
+	if name == "" {
+		name = "log"
+	}
+	sub := d.ldir
+	for i := 0; i < deep; i++ {
+		sub = filepath.Join(sub, fmt.Sprintf("lvl %d.\u00e9", i)) // space, dot, non-ASCII
+	}
+	d.path = filepath.Join(sub, name)
+	if err := os.MkdirAll(sub, 0o755); err != nil {
 		hx.Fatal("mkdir: %v", err)
 	}
 	return d
+}
+
+func nameLen(name string) int {
+	if name == "" {
+		return 3
+	}
+	return len(name)
 }
 
 // fault applies one outside operation; ob collects what the harness itself took away.
@@ -197,8 +218,9 @@ func (t *logTap) failures(path string) int {
 	t.mu.Lock()
 	defer t.mu.Unlock()
 	n := 0
+	q := strings.Trim(strconv.QuoteToASCII(path), "\"") // the message quotes the error with %+q
 	for _, m := range t.msgs {
-		if strings.Contains(m, "Failed to copy data") && strings.Contains(m, path) {
+		if strings.Contains(m, "Failed to copy data") && (strings.Contains(m, path) || strings.Contains(m, q)) {
 			n++
 		}
 	}
@@ -278,7 +300,7 @@ type rotFile interface {
 // runW returns ambiguous=true when a clock reading straddled a second boundary.
 func runW(in WIn, dir string) (ob Obs, batches [][]byte, initB []byte, crash string, ambiguous bool) {
 	os.RemoveAll(dir)
-	dst := newDest(dir)
+	dst := newDest(dir, in.Name, in.Deep)
 	path := dst.path
 	id := 0
 	for _, n := range in.Init {
@@ -334,7 +356,30 @@ func runW(in WIn, dir string) (ob Obs, batches [][]byte, initB []byte, crash str
 			}
 			batches = append(batches, p)
 			s1 := time.Now().Unix()
-			n, err := rf.Write(append([]byte(nil), p...))
+			var n int
+			var err error
+			done := make(chan struct{})
+			go func() {
+				defer func() {
+					if r := recover(); r != nil {
+						err = fmt.Errorf("panic: %v", r)
+						crash = err.Error()
+					}
+					close(done)
+				}()
+				n, err = rf.Write(append([]byte(nil), p...))
+			}()
+			select {
+			case <-done:
+			case <-time.After(patience):
+				crash = "Write did not return within the deadline"
+				dst.restore()
+				return
+			}
+			if crash != "" {
+				dst.restore()
+				return
+			}
 			s2 := time.Now().Unix()
 			if s1 != s2 {
 				ambiguous = true
@@ -495,7 +540,7 @@ func coqW(id int, in WIn, ob Obs, batches [][]byte, initB []byte) string {
 	for i, n := range ob.Rets {
 		rets = append(rets, fmt.Sprintf("(%s, %s)", hx.CoqZ(int64(n)), hx.CoqBool(ob.Errs[i] == "")))
 	}
-	return fmt.Sprintf("CW (mkW %s %s %s %s %s %s %s %s %s %s %s)", hx.CoqN(uint64(id)), hx.CoqZ(in.Max), hx.CoqN(uint64(ob.Sec0)),
+	return fmt.Sprintf("CW (mkW %s %s %s %s %s %s %s %s %s %s %s %s)", hx.CoqN(uint64(id)), hx.CoqZ(in.Max), hx.CoqZ(int64(nameLen(in.Name))), hx.CoqN(uint64(ob.Sec0)),
 		coqRLE(initB), hx.CoqList(ops, "cop"), hx.CoqList(rets, "(Z * bool)"), hx.CoqBool(ob.Exists), coqRLE(ob.cur),
 		coqRot(ob.Rot), coqRLEs(ob.moved), coqRLEs(ob.gone))
 }
@@ -589,6 +634,25 @@ func alignSecond() {
 	}
 }
 
+// tomlQuote: a TOML basic string; UTF-8 goes in as it is.
+func tomlQuote(s string) string {
+	var sb strings.Builder
+	sb.WriteByte('"')
+	for _, r := range s {
+		switch {
+		case r == '"' || r == '\\':
+			sb.WriteByte('\\')
+			sb.WriteRune(r)
+		case r < 0x20 || r == 0x7f:
+			fmt.Fprintf(&sb, "\\u%04X", r)
+		default:
+			sb.WriteRune(r)
+		}
+	}
+	sb.WriteByte('"')
+	return sb.String()
+}
+
 // badValue: something encoding/json refuses to marshal.
 func badValue(k int) interface{} {
 	switch k {
@@ -614,11 +678,11 @@ func waitUntil(max time.Duration, cond func() bool) bool {
 	}
 }
 
-const patience = 45 * time.Second // deadline for things that must happen eventually
+const patience = 30 * time.Second // deadline for things that must happen eventually
 
 func runC(in CIn, dir string) (ob Obs, lines [][][]byte, initB []byte, crash string, ambiguous bool) {
 	os.RemoveAll(dir)
-	dst := newDest(dir)
+	dst := newDest(dir, in.Name, in.Deep)
 	path := dst.path
 	id := 0
 	if !in.Openable {
@@ -647,7 +711,7 @@ func runC(in CIn, dir string) (ob Obs, lines [][][]byte, initB []byte, crash str
 		dst.restore()
 	}()
 	var cfg tomlCfg
-	md, err := toml.Decode(fmt.Sprintf("[c]\ntype=\"file\"\nfilename=%s\nmaxsize=%d\n", hx.TomlStr(path), in.Max), &cfg)
+	md, err := toml.Decode(fmt.Sprintf("[c]\ntype=\"file\"\nfilename=%s\nmaxsize=%d\n", tomlQuote(path), in.Max), &cfg)
 	if err != nil {
 		hx.Fatal("toml: %v", err)
 	}
@@ -655,7 +719,10 @@ func runC(in CIn, dir string) (ob Obs, lines [][][]byte, initB []byte, crash str
 	if !ok {
 		hx.Fatal("channel type file is not registered")
 	}
-	alignSecond()
+	strictName := nameLen(in.Name) <= 200 // then rotation seconds are read off the rotated names
+	if !strictName {
+		alignSecond()
+	}
 	base := time.Now().Unix()
 	ch, err := fn(pushers.WithConfig(cfg.C, &md))
 	if err != nil || ch == nil {
@@ -677,7 +744,7 @@ func runC(in CIn, dir string) (ob Obs, lines [][][]byte, initB []byte, crash str
 		return
 	}
 	// New opens the destination (rotating a full file) before it returns
-	if time.Now().Unix() != base {
+	if !strictName && time.Now().Unix() != base {
 		ambiguous = true
 		return
 	}
@@ -721,7 +788,9 @@ func runC(in CIn, dir string) (ob Obs, lines [][][]byte, initB []byte, crash str
 			ob.Secs = append(ob.Secs, 0, 0)
 			continue
 		}
-		alignSecond()
+		if nameLen(in.Name) > 200 {
+			alignSecond()
+		}
 		s1 := time.Now().Unix()
 		t0 := time.Now()
 		nfail := tap.failures(path)
@@ -736,7 +805,8 @@ func runC(in CIn, dir string) (ob Obs, lines [][][]byte, initB []byte, crash str
 		before := takeSnap(path) // the idle flush comes a second after the last Send at the earliest
 		// more than a second between two Sends would let the idle flush cut the burst in two;
 		// a size flush during the burst needs one clock reading
-		if time.Since(t0) > 600*time.Millisecond || (crossed && s1 != s2) {
+		strict := nameLen(in.Name) <= 200 // then the rotation seconds are read off the rotated names
+		if time.Since(t0) > 600*time.Millisecond || (!strict && crossed && s1 != s2) {
 			ambiguous = true
 			break
 		}
@@ -761,10 +831,11 @@ func runC(in CIn, dir string) (ob Obs, lines [][][]byte, initB []byte, crash str
 			// during the burst is older)
 			// (bounded by 10 s: should this goroutine have been stalled for a second right after
 			// the last Send, the flush is already in the snapshot and nothing more will change)
-			waitUntil(10*time.Second, func() bool { return takeSnap(path) != before })
+			// (a flush that fails - a rotation that is impossible - shows in the writer's log)
+			waitUntil(10*time.Second, func() bool { return takeSnap(path) != before || tap.failures(path) > nfail })
 			quiesce(path, 150*time.Millisecond, patience)
 			if ft, n, spread := writtenSince(path, tdone); n > 0 {
-				if spread || ft.Nanosecond() > 985e6 || ft.Nanosecond() < 15e6 {
+				if !strict && (spread || ft.Nanosecond() > 985e6 || ft.Nanosecond() < 15e6) {
 					ambiguous = true
 				}
 				tflush = ft
@@ -786,6 +857,7 @@ func runC(in CIn, dir string) (ob Obs, lines [][][]byte, initB []byte, crash str
 	if ambiguous {
 		return
 	}
+	ob.LogErrs = tap.failures(path)
 	if b, err := ioutil.ReadFile(path); err == nil {
 		ob.Exists = true
 		ob.cur = b
@@ -831,14 +903,20 @@ func coqC(id int, in CIn, ob Obs, lines [][][]byte, initB []byte) string {
 		bs = append(bs, fmt.Sprintf("(%s, %s, %s, %s)", hx.CoqN(uint64(f)), hx.CoqN(uint64(s1)), hx.CoqN(uint64(s2)), coqOptRLEs(bl)))
 	}
 	var clock []string
-	if in.Big {
+	sec0 := ob.Sec0
+	if nameLen(in.Name) <= 200 && len(ob.Rot) > 0 {
+		sec0 = ob.Rot[0].Sec // a rotation when the file was opened is the first one; otherwise unused
+	}
+	if in.Big || nameLen(in.Name) <= 200 {
+		// every rotation succeeds (the name fits): the second each one read is in the names
 		for _, r := range ob.Rot { // sorted by (second, k) = order of rotation
 			clock = append(clock, hx.CoqN(uint64(r.Sec)))
 		}
 	}
-	return fmt.Sprintf("CC (mkC %s %s %s %s %s %s %s %s %s %s %s %s %s)", hx.CoqN(uint64(id)), hx.CoqZ(in.Max), hx.CoqBool(in.Openable),
-		hx.CoqN(uint64(ob.Sec0)), coqRLE(initB), hx.CoqList(bs, "(N * N * N * list (option rle))"), hx.CoqList(clock, "N"),
-		hx.CoqBool(!ob.NewErr), hx.CoqBool(ob.Blocked), coqRLE(ob.cur), coqRot(ob.Rot), coqRLEs(ob.moved), coqRLEs(ob.gone))
+	return fmt.Sprintf("CC (mkC %s %s %s %s %s %s %s %s %s %s %s %s %s %s %s)", hx.CoqN(uint64(id)), hx.CoqZ(in.Max), hx.CoqZ(int64(nameLen(in.Name))), hx.CoqBool(in.Openable),
+		hx.CoqN(uint64(sec0)), coqRLE(initB), hx.CoqList(bs, "(N * N * N * list (option rle))"), hx.CoqList(clock, "N"),
+		hx.CoqBool(!ob.NewErr), hx.CoqBool(ob.Blocked), coqRLE(ob.cur), coqRot(ob.Rot), coqRLEs(ob.moved), coqRLEs(ob.gone),
+		hx.CoqN(uint64(ob.LogErrs)))
 }
 
 // ---- generators ----
@@ -1118,6 +1196,70 @@ func badC(max int64, burst []int, all bool) []CIn {
 	return out
 }
 
+// logNames: base names of the log file: 1 byte, long ones around the point where name +
+// ".YYYYMMDDhhmmss" (+ ".<k>") no longer fits into NAME_MAX = 255, spaces / dots / non-ASCII.
+func logNames() []string {
+	long := func(n int) string { return strings.Repeat("n", n-4) + ".log" }
+	return []string{"a", long(200), long(238), long(240), long(241), long(250), long(255),
+		"my log .file.json", "\u043b\u043e\u0433 \u30d5\u30a1\u30a4\u30eb.log"}
+}
+
+// namesW / namesC: histories that rotate (a newline in the window; none in the window; twice
+// within one second; again a second later) under every name, also below nested directories.
+func namesW(all bool) []WIn {
+	var out []WIn
+	for i, n := range logNames() {
+		ops := []Op{{K: "w", Lens: []int{300, 300, 300}}, {K: "w", Lens: []int{300, 300}}, {K: "w", Lens: rep(300, 7)},
+			{K: "t"}, {K: "w", Lens: []int{300, 300, 300}}, {K: "w", Lens: []int{700}}, {K: "w", Lens: []int{60}}}
+		out = append(out, WIn{Name: n, Deep: i % 3, Max: 1024, Ops: ops})
+		if all {
+			out = append(out, WIn{Name: n, Deep: 4, Max: 4096, Ops: []Op{{K: "w", Lens: rep(1000, 5)}, {K: "rm"}, {K: "w", Lens: rep(1000, 5)},
+				{K: "da"}, {K: "w", Lens: []int{100}}, {K: "db"}, {K: "w", Lens: rep(1000, 9)}, {K: "t"}, {K: "w", Lens: []int{5000, 100}}}})
+		}
+	}
+	return out
+}
+
+func namesC(all bool) []CIn {
+	var out []CIn
+	for i, n := range logNames() {
+		if !all && (i == 1 || i == 2 || i == 5) {
+			continue
+		}
+		out = append(out, CIn{Name: n, Deep: i % 3, Max: 1024, Openable: true,
+			Bursts: [][]int{{300, 300, 300}, {300, 300}, rep(300, 7), {700}}})
+		if all {
+			out = append(out, CIn{Name: n, Deep: 3, Max: 4096, Openable: true, Init: rep(1000, 4),
+				Bursts: [][]int{{1000}, rep(1000, 9), {5000, 100}}, Faults: []string{"", "rm", ""}})
+		}
+	}
+	return out
+}
+
+// sizesC: single events around and beyond the 500 KiB flush threshold - after an idle second,
+// two back to back, directly behind a size flush caused by small events.
+func sizesC(all bool) []CIn {
+	kib := 1024
+	var out []CIn
+	mk := func(max int64, b ...[]int) { out = append(out, CIn{Max: max, Openable: true, Bursts: b}) }
+	if !all {
+		mk(1<<20, []int{100}, []int{500 * kib})                   // after an idle second, exactly the threshold
+		mk(4096, []int{501 * kib, 1024 * kib})                    // back to back
+		mk(1<<20, append(rep(2000, 256), 1024*kib), []int{100})   // behind a size flush
+		mk(4096, []int{100}, []int{499 * kib}, []int{1000 * kib}) // just below; well above after an idle second
+		return out
+	}
+	sizes := []int{499 * kib, 500 * kib, 501 * kib, 1024 * kib, 1000 * kib}
+	for i, n := range sizes {
+		for _, max := range []int64{1 << 20, 4096} {
+			mk(max, []int{100}, []int{n})                  // after an idle second
+			mk(max, []int{n, sizes[(i+1)%len(sizes)]})     // back to back
+			mk(max, append(rep(2000, 256), n), []int{100}) // behind a size flush
+		}
+	}
+	return out
+}
+
 // bigBurst: one burst without idle gap, the pattern of event lengths repeated up to total bytes
 // (more than the 500 KiB flush threshold, so the size flush happens inside the burst).
 func bigBurst(max int64, pattern []int, total int) CIn {
@@ -1282,6 +1424,16 @@ func main() {
 		for _, x := range badC(1024, []int{200, 200, 200, 200}, all) {
 			c(x)
 		}
+		// the name and place of the log file; the size of a single event
+		for _, x := range namesW(all) {
+			w(x)
+		}
+		for _, x := range namesC(all) {
+			c(x)
+		}
+		for _, x := range sizesC(all) {
+			c(x)
+		}
 		if all {
 			for _, x := range faultsW(4096, [][]int{{1000, 1000, 1000}, {1000, 1000}, {5000}, {100}, {1000, 1000, 1000}}, true) {
 				w(x)
@@ -1312,6 +1464,57 @@ func main() {
 		}
 	}
 
+	if o.Only == "" {
+		// every channel case ends with one more small event after the last idle flush: a writer
+		// that stopped making progress shows as a Send that does not return
+		for _, in := range ins {
+			if in.C != nil && in.C.Openable && in.C.Max >= 1024 {
+				in.C.Bursts = append(append([][]int(nil), in.C.Bursts...), []int{60})
+			}
+		}
+	}
+
+	// spread the cases that carry a lot of bytes over the shards (one shard = 60 consecutive cases)
+	weight := func(in Input) int {
+		n := 0
+		if in.C != nil {
+			for _, b := range in.C.Bursts {
+				for _, x := range b {
+					if x > 0 {
+						n += x
+					}
+				}
+			}
+		} else {
+			for _, op := range in.W.Ops {
+				for _, x := range op.Lens {
+					n += x
+				}
+			}
+		}
+		return n
+	}
+	if o.Only == "" {
+		var light, heavy []Input
+		for _, in := range ins {
+			if weight(in) > 300000 {
+				heavy = append(heavy, in)
+			} else {
+				light = append(light, in)
+			}
+		}
+		ins = ins[:0]
+		every := len(light)/(len(heavy)+1) + 1
+		for i, in := range light {
+			ins = append(ins, in)
+			if i%every == every-1 && len(heavy) > 0 {
+				ins = append(ins, heavy[0])
+				heavy = heavy[1:]
+			}
+		}
+		ins = append(ins, heavy...)
+	}
+
 	scratch := filepath.Join(o.Out, "scratch")
 	os.RemoveAll(scratch)
 	os.MkdirAll(scratch, 0o755)
@@ -1326,7 +1529,11 @@ func main() {
 		go func() {
 			defer wg.Done()
 			for j := range jobs {
+				t0 := time.Now()
 				cases[j.id] = runJob(j, scratch)
+				if d := time.Since(t0); d > 8*time.Second && os.Getenv("C07_SLOW") != "" {
+					fmt.Fprintf(os.Stderr, "slow case %d: %v %s\n", j.id, d, inputJSON(j.in))
+				}
 			}
 		}()
 	}
